@@ -165,6 +165,18 @@ def triple_cells(start_id, repeats):
             for i in range(repeats)]
 
 
+def xopen_cells(start_id):
+    """Tlopen of an xattr fid (which borrows the File of its source fid) followed by Tlopen of the source fid: Open is
+    invoked at most once on a File.  In the code as it is the first request never reaches the backend (EINVAL), so the
+    cell is counted as 'not set up'; a File.Open on behalf of the xattr fid makes the log violate OpenOnce."""
+    cells = []
+    for i, n in enumerate((2, 3)):
+        cells.append({"id": start_id + 1 + i, "samefid": True, "cross": False,
+                      "a": {"p": "open", "n": n, "e": 1, "op": "xlopen", "k": "", "hold": "Open", "holdidx": 1, "i": open_idx()},
+                      "b": {"p": "open", "n": n, "e": 1, "op": "lopen", "k": "", "hold": "Open", "holdidx": 1, "i": open_idx()}})
+    return cells
+
+
 def run(prop, tier, seed, rule):
     t0 = time.time()
     verdict = vlib.Verdict(prop)
@@ -208,6 +220,7 @@ def run(prop, tier, seed, rule):
         cells += racy_cells(max(c["id"] for c in cells), 3 if tier == "quick" else 12)
         cells += samefid_cells(max(c["id"] for c in cells))
         cells += triple_cells(max(c["id"] for c in cells), 4 if tier == "quick" else 16)
+        cells += xopen_cells(max(c["id"] for c in cells))
         cfile = os.path.join(s, "cells.json")
         json.dump(cells, open(cfile, "w"))
         results, traces = run_pairs(s, cfile, "120ms")
